@@ -4,7 +4,7 @@ use crate::chain::{self, Net, ScriptSpec};
 use crate::hist::{pick, Cfg, DiffMode, StepInfo, TxSpec, World};
 use crate::model::H32;
 use crate::sut::{self, SutConfig};
-use bitcoin::hashes::Hash;
+
 use ic_btc_canister as can;
 use ic_btc_canister::runtime::verif_hooks as hooks;
 use ic_btc_canister::runtime::GetSuccessorsReply;
@@ -12,6 +12,7 @@ use ic_btc_canister::types::{
     BlockHeaderBlob, GetSuccessorsCompleteResponse, GetSuccessorsPartialResponse, GetSuccessorsRequest,
     GetSuccessorsResponse,
 };
+use bitcoin::hashes::Hash;
 use serde::{Deserialize, Serialize};
 use std::cell::RefCell;
 use std::collections::VecDeque;
@@ -67,6 +68,8 @@ pub struct Source {
     /// When set, the reply shape for an initial request is a function of the request contents
     /// only (the same request always gets the same shape), chosen from this list.
     pub plan_by_request: Option<Vec<ReplyPlan>>,
+    /// The announced headers (`next`) of the most recent complete/partial reply.
+    pub last_next: Vec<Vec<u8>>,
 }
 
 fn hash_arr(h: &ic_btc_types::BlockHash) -> H32 {
@@ -222,6 +225,11 @@ impl Source {
                         }
                     }
                 };
+                self.last_next = match &reply {
+                    GetSuccessorsReply::Ok(GetSuccessorsResponse::Complete(c)) => c.next.iter().map(|h| h.as_slice().to_vec()).collect(),
+                    GetSuccessorsReply::Ok(GetSuccessorsResponse::Partial(p)) => p.next.iter().map(|h| h.as_slice().to_vec()).collect(),
+                    _ => vec![],
+                };
                 self.log.push(LogEntry { request: req.clone(), reply: kind, split_block: split });
                 reply
             }
@@ -233,6 +241,8 @@ pub struct HbWorld {
     pub w: World,
     pub source: Rc<RefCell<Source>>,
     pub heartbeats: usize,
+    /// Model of the validated announced headers: hash -> height.
+    pub announced: std::collections::BTreeMap<H32, u32>,
 }
 
 #[derive(Clone, Debug, Default)]
@@ -257,7 +267,7 @@ impl HbWorld {
             let reply = s2.borrow_mut().reply(req);
             can::runtime::set_successors_response(reply);
         })));
-        HbWorld { w, source, heartbeats: 0 }
+        HbWorld { w, source, heartbeats: 0, announced: Default::default() }
     }
 
     /// Blocks (ids) that descend from the canister's anchor, delivered or not.
@@ -308,6 +318,7 @@ impl HbWorld {
             Some(k) => hooks::set_performance_counter_step(1_000_000_000u64.div_ceil(k.max(1) as u64 + 1)),
         }
         let log_before = self.source.borrow().log.len();
+        let complete_stored_before = can::with_state(|s| matches!(s.syncing_state.response_to_process, Some(can::state::ResponseToProcess::Complete(_))));
         let r = sut::guarded(|| futures::executor::block_on(can::heartbeat()));
         hooks::set_performance_counter_step(0);
         hooks::performance_counter_reset();
@@ -316,8 +327,74 @@ impl HbWorld {
             info.trapped = Some(p);
             return info;
         }
+        let anchor_before = self.w.model.anchor_height();
         self.sync(&mut info);
+        // ---- model of the announced headers ----------------------------------------------
+        // dropped when their block arrives
+        for id in &info.admitted {
+            let h = self.w.model.blocks[*id].hash;
+            self.announced.remove(&h);
+        }
+        // dropped at the latest when the stable height reaches theirs
+        if self.w.model.anchor_height() != anchor_before {
+            let sh = self.w.model.anchor_height();
+            self.announced.retain(|_, height| *height > sh);
+        }
+        let processed = complete_stored_before && can::with_state(|s| s.syncing_state.response_to_process.is_none()) && info.requests_issued == 0;
+        if processed {
+            let next = self.source.borrow().last_next.clone();
+            for raw in next {
+                let hd: bitcoin::block::Header = match bitcoin::consensus::deserialize(&raw) {
+                    Ok(h) => h,
+                    Err(_) => break,
+                };
+                let hash = hd.block_hash().to_byte_array();
+                if self.announced.contains_key(&hash) {
+                    continue;
+                }
+                // connected: walk back through announced headers to a block of the tree
+                let prev = hd.prev_blockhash.to_byte_array();
+                let height = if let Some(h) = self.announced.get(&prev) {
+                    // the announced chain must be rooted in the tree
+                    let mut cur = prev;
+                    let mut rooted = false;
+                    for _ in 0..10_000 {
+                        match self.w.model.id_of(&cur) {
+                            Some(id) if self.w.model.live.contains(&id) => {
+                                rooted = true;
+                                break;
+                            }
+                            _ => {}
+                        }
+                        if !self.announced.contains_key(&cur) {
+                            break;
+                        }
+                        cur = match self.w.model.id_of(&cur) {
+                            Some(id) => self.w.model.blocks[self.w.model.blocks[id].parent.unwrap()].hash,
+                            None => break,
+                        };
+                    }
+                    if !rooted {
+                        break;
+                    }
+                    *h + 1
+                } else {
+                    match self.w.model.id_of(&prev) {
+                        Some(p) if self.w.model.live.contains(&p) => self.w.model.blocks[p].height + 1,
+                        _ => break,
+                    }
+                };
+                if self.w.model.id_of(&hash).map(|id| self.w.model.live.contains(&id)).unwrap_or(false) {
+                    break;
+                }
+                self.announced.insert(hash, height);
+            }
+        }
         info
+    }
+
+    pub fn max_announced_height(&self) -> Option<u32> {
+        self.announced.values().copied().max()
     }
 
     pub fn sync(&mut self, info: &mut HbInfo) {
